@@ -186,15 +186,13 @@ def run(rep, prop, seed, n=3, nf=3, ng=2, xfull=False, naops=False, permops=Fals
         if res.violated:
             rep.violation({"clause": "spec_level:" + ",".join(res.violated), "site": "Design.tla"}, {"tlc_tail": res.out[-3000:]})
             return
-        cases = tlc.read_export(out)
-        # each check replays only the cases that serve its property
+        # each check replays only the cases that serve its property; the export is read as a stream and, when a
+        # sample size is given, sampled on the fly (the export of a thorough run is several gigabytes)
         want_phase = {"C06": ("evaluated",), "C10": ("evaluated",), "C08": ("built",), "C09": ("built",)}.get(prop, ("built",))
         want_opn = {"C08": (0, 1), "C09": (2,), "C06": (0,)}.get(prop, (0,))
-        cases = [c for c in cases if c["phase"] in want_phase and c["opn"] in want_opn]
-        rep.count("s2c_cases_enumerated", len(cases))
-        if sample and len(cases) > sample:
-            rng = random.Random(seed)
-            cases = rng.sample(cases, sample)
+        cases = tlc.read_export(out, keep=lambda c: c["phase"] in want_phase and c["opn"] in want_opn, sample=sample, rng=random.Random(seed))
+        rep.count("s2c_cases_enumerated", tlc.read_export.total)
+        if sample and tlc.read_export.total > sample:
             rep.notes["s2c_replay_sampled"] = True
         results = common.pool_map(_replay, [(c, seed) for c in cases])
         for c, (problems, ood) in zip(cases, results):
